@@ -26,7 +26,7 @@ async fn compare(store: &SqliteStore, keys: &[SigningKey], m: &Model, ctx: &Valu
             match got { Ok(g) => if g.as_ref().map(|o| o.hash) != want { rep("latest-entry-differs-from-model", json!({"ctx": ctx, "author": ai, "log": log}), json!({"got_seq": g.map(|o| o.header.seq_num), "want_seq": stored.iter().map(|o| o.header.seq_num).max()})); },
                 Err(e) => rep("latest-entry-query-fails", json!({"ctx": ctx, "author": ai, "log": log}), json!({"error": e.to_string()})) }
             // ranged entries and sizes
-            for after in [None, Some(0u32), Some(1), Some(3)] { for until in [None, Some(0u32), Some(2), Some(u32::MAX)] {
+            for after in [None, Some(0u32), Some(1), Some(3), Some(u32::MAX)] { for until in [None, Some(0u32), Some(2), Some(u32::MAX)] {
                 let in_range: Vec<&&Op> = stored.iter().filter(|o| after.map(|a| o.header.seq_num > a).unwrap_or(true) && o.header.seq_num <= until.unwrap_or(u32::MAX)).collect();
                 *n += 2;
                 let want_seqs: Vec<u32> = in_range.iter().map(|o| o.header.seq_num).collect();
@@ -112,7 +112,38 @@ fn main() {
             }
         } } }
     } }
-    for (c, i, o) in out { if reported.insert(c.clone()) { rp_core::report(true, &c, i, o, &[]); } }
+    // large announced sizes: header-only operations (body not stored) whose header announces a big payload; sizes are summed
+    // by the store, so the totals get close to / beyond u32::MAX. No query may panic; a total that does not fit must be an Err.
+    for sizes in [vec![u32::MAX - 400], vec![u32::MAX], vec![u32::MAX / 2, u32::MAX / 2], vec![u32::MAX, 10]] {
+        scenarios += 1;
+        let ctx = json!({"header_only_operations_with_announced_payload_sizes": sizes});
+        let keys2 = keys.clone();
+        let r = std::panic::catch_unwind(std::panic::AssertUnwindSafe(|| {
+            rt.block_on(async {
+                let store = SqliteStore::temporary().await;
+                let mut bl = None;
+                let mut want: u64 = 0;
+                for (i, sz) in sizes.iter().enumerate() {
+                    let mut header = p2panda_core::Header::<()> { verifying_key: keys2[0].verifying_key(), version: 1, signature: None, payload_size: *sz, payload_hash: Some(Hash::digest(b"announced")), seq_num: i as u32, backlink: bl, extensions: () };
+                    header.sign(&keys2[0]);
+                    want += header.to_bytes().len() as u64 + *sz as u64;
+                    let o = Op { hash: header.hash(), header, body: None };
+                    bl = Some(o.hash);
+                    { use p2panda_store::Transaction; let permit = store.begin().await.unwrap(); OperationStore::<Op, Hash>::insert_operation(&store, &o.hash, &o, &1u64).await.unwrap(); store.commit(permit).await.unwrap(); }
+                }
+                let got = LogStore::<Op, VerifyingKey, u64, u32, Hash>::get_log_size(&store, &keys2[0].verifying_key(), &1u64, None, None).await;
+                (want, got.map_err(|e| e.to_string()))
+            })
+        }));
+        n += 1;
+        match r {
+            Err(p) => { let msg = p.downcast_ref::<String>().cloned().or(p.downcast_ref::<&str>().map(|s| s.to_string())).unwrap_or_default(); out.push(("log-size-query-panics-on-large-totals".into(), ctx.clone(), json!({"panic": msg}))); }
+            // a total that does not fit the u32 result is reported as u32::MAX ("at least this much"), never wrapped around
+            Ok((want, Ok(Some((_, total))))) => if total as u64 != want.min(u32::MAX as u64) { out.push(("log-size-wraps-on-large-totals".into(), ctx.clone(), json!({"got_total": total, "model_total": want}))); },
+            Ok(_) => {}
+        }
+    }
+    for (c, i, o) in out { if reported.insert(c.clone()) { rp_core::report(true, &c, i, o, if c.contains("large-totals") { &["logstore_glue::LogStore@SqliteStore::get_log_size.safety"][..] } else { &[][..] }); } }
     println!("{}", json!({"summary": true, "function": "p2panda-store/src/logs/sqlite/mod.rs LogStore@SqliteStore (get_latest_entry / get_log_heights / get_log_entries / get_log_size / prune_entries)",
         "evaluations": n, "distinct_nontrivial": scenarios, "exhaustive": true,
         "rule": "every query of the real SQLite log store compared with an in-memory model after each command of: insert 3 chains (2 authors, 2 logs), delete an operation, delete a payload, prune; (after, until) grid incl. Some(0) and MAX; log sets incl. empty, unknown, duplicate, partially populated; distinct_nontrivial = command scenarios",
